@@ -83,6 +83,14 @@ class _Linalg:
             return hook(m)
         return _np.linalg.eigvals(m)
 
+    def svd(self, m, *a, **kw):
+        if _is_obj(m):
+            hook = self._proxy.svd_hook
+            if hook is None:
+                raise symtorch.UnsupportedOp("np.linalg.svd of a symbolic matrix")
+            return hook(m, *a, **kw)
+        return _np.linalg.svd(m, *a, **kw)
+
     def __getattr__(self, name):
         return getattr(_np.linalg, name)
 
@@ -92,6 +100,7 @@ class NPProxy:
 
     def __init__(self):
         self.eigvals_hook = None
+        self.svd_hook = None
         self.linalg = _Linalg(self)
 
     def __getattr__(self, name):
@@ -159,6 +168,8 @@ class NPProxy:
 
     def sum(self, x, *a, **k):
         r = _np.sum(x, *a, **k)
+        if isinstance(r, _np.ndarray) and r.ndim == 0 and r.dtype == object:
+            r = r[()]  # numpy returns a scalar, not a 0-d array, for a full reduction
         return r
 
     def prod(self, x, *a, **k):
